@@ -38,6 +38,8 @@ type P2Config struct {
 	// ReloadFails (with Reused): between the second cycle's compute and write, a LoadFileData fails (an input is missing
 	// for a moment)
 	ReloadFails bool `json:"reloadfails,omitempty"`
+	// Base is the base name of the index file (default "s")
+	Base string `json:"base,omitempty"`
 }
 
 func (c P2Config) Key() string { return fmt.Sprintf("%v", c) }
@@ -81,6 +83,9 @@ func GetP2(cfg P2Config, seed int64) (*P2Set, error) {
 // BuildP2 builds a set.
 func BuildP2(cfg P2Config, seed int64) (*P2Set, error) {
 	s := &P2Set{Cfg: cfg, Dir: "/d", Index: "/d/s.par2"}
+	if cfg.Base != "" {
+		s.Index = "/d/" + cfg.Base + ".par2"
+	}
 	fs := envfs.New()
 	for i, n := range cfg.Sizes {
 		name := fmt.Sprintf("f%d", i)
@@ -165,7 +170,7 @@ func BuildP2(cfg P2Config, seed int64) (*P2Set, error) {
 	}
 	s.RecExps = map[string][]uint32{}
 	for _, p := range fs.Paths() {
-		if p != s.Index && strings.HasPrefix(p, "/d/s.") && strings.HasSuffix(p, ".par2") {
+		if p != s.Index && strings.HasPrefix(p, strings.TrimSuffix(s.Index, ".par2")+".") && strings.HasSuffix(p, ".par2") {
 			s.RecFiles = append(s.RecFiles, p)
 			s.RecExps[p] = IntactExponents(fs.Files[p], s.Ref.SetID, cfg.Slice)
 		}
